@@ -112,6 +112,10 @@ CLAIMED = {
             "Location provenance of the CST->AST conversion (only location-carrying constructors; at all 28 with_location sites the syntax node and the converted value come from the same CST node; the conversion's own file id), the Name span (NAME node, first token text; start offset and tag-preserving file id stored; location() rebuilt from them), the unit of LineColumn.column (must derive from a character count, not from a byte offset - the byte-column defect was found by this rule and repaired), the separator set of the line counter (not ariadne's seven-separator table; only LF and CR are compared - also found and repaired), and the source of JSON error locations.",
             "Decides provenance and units, not the numeric values of positions. Later stages (schema/executable) clone the located nodes; that they do is not re-derived.",
             "access-path provenance over rustc MIR (symbolic operands), who-calls on location-less constructors, backward may-derive slice for units and line separators", False),
+    "C17": ("other",
+            "Handler registry: each of the 34 operation-validation rules of spec section 5 (as split into diagnostic kinds) has a diagnostic of the matching kind constructed in a function reachable from the executable validation entries and, for construct-specific rules, through the validator of that construct (values, directives, field arguments). The missing handler for 5.6.3 Input Object Field Uniqueness was found by this rule and repaired. Plus the per-operation scope of the validated-fragments memo (the per-operation variable rules 5.8.3/5.8.5 are otherwise applied with another operation's variables).",
+            "Presence of a handler per rule is a necessary condition only; that each handler's condition equals the spec's, i.e. verdict agreement with graphql-js, is not decided (not decidable by this family).",
+            "call-graph reachability from entry points to diagnostic construction sites (aggregates in MIR) against a rule->variant registry; who-writes / provenance for the memo scope", False),
 }
 
 NOT_APPLICABLE = {
